@@ -502,6 +502,8 @@ func (x *Exec) safety(kind string, node ast.Node, st *State, goal string, human 
 	}
 	ord := x.ord[node]
 	x.oblige(kind, ord, node.Pos(), st, goal, human)
+	// execution continues past this point only if the check passed
+	x.c.assume(st.pc, goal)
 }
 
 func (x *Exec) toIndex(v Val, keySort string) string {
